@@ -26,7 +26,14 @@ SIX_A_YEAR = (
     "Zone\tGen/Zone0\t3:00\t-\tLMT\t1980\n"
     "\t\t\t3:00\tPA\tA%sT\n")
 
+SEVEN_ERAS_A_YEAR = (
+    "Zone\tGen/Zone0\t3:07\t-\tLMT\t1980\n"
+    "\t\t\t3:00\t-\tAAA\t2010 Feb 1\n\t\t\t4:00\t-\tBBB\t2010 Apr 1\n\t\t\t5:00\t-\tCCC\t2010 Jun 1\n"
+    "\t\t\t6:00\t-\tDDD\t2010 Aug 1\n\t\t\t7:00\t-\tEEE\t2010 Oct 1\n\t\t\t8:00\t-\tFFF\t2010 Dec 1\n\t\t\t9:00\t-\tGGG\n")
+
 KNOWN_PROBES = [
+    # seven eras inside one year: more ZoneEras than ExtendedZoneProcessor::kMaxMatches; the compiler must refuse the zone
+    ("capacity:seven-eras-a-year:extended", "extended", SEVEN_ERAS_A_YEAR),
     # six rule transitions a year: more than either processor can hold. Extended: the compiler must refuse the zone (or
     # produce a correct one); basic: listed known finding
     ("capacity:six-transitions-a-year:extended", "extended", SIX_A_YEAR),
